@@ -52,6 +52,7 @@ type nodeSut struct {
 	direct   bool // the harness itself removes a pod (kubelet finished)
 	hasClaim bool
 	opts     nodeOpts
+	armed    bool   // faults apply only while the controller runs
 	fault    string // per pass: "", claim-list-fails, claim-delete-fails, taint-conflict, taint-error, pod-list-fails, status-patch-fails
 	ctx      context.Context
 }
@@ -120,7 +121,7 @@ func newNodeSut(c *kit.Ctx, r *kit.Rand, pods []*podSpec, o nodeOpts, ann *strin
 			return (&sut{plan: plan{api: n.api}}).apiErr(pod.Name)
 		},
 		Delete: func(ctx context.Context, cl client.WithWatch, obj client.Object, opts ...client.DeleteOption) error {
-			if _, isClaim := obj.(*v1.NodeClaim); isClaim && n.fault == "claim-delete-fails" {
+			if _, isClaim := obj.(*v1.NodeClaim); isClaim && n.hot() == "claim-delete-fails" {
 				return apierrors.NewInternalError(errors.New("injected"))
 			}
 			pod, ok := obj.(*corev1.Pod)
@@ -139,11 +140,11 @@ func newNodeSut(c *kit.Ctx, r *kit.Rand, pods []*podSpec, o nodeOpts, ann *strin
 		List: func(ctx context.Context, cl client.WithWatch, list client.ObjectList, opts ...client.ListOption) error {
 			switch list.(type) {
 			case *v1.NodeClaimList:
-				if n.fault == "claim-list-fails" {
+				if n.hot() == "claim-list-fails" {
 					return apierrors.NewInternalError(errors.New("injected"))
 				}
 			case *corev1.PodList:
-				if n.fault == "pod-list-fails" {
+				if n.hot() == "pod-list-fails" {
 					return apierrors.NewInternalError(errors.New("injected"))
 				}
 			}
@@ -151,7 +152,7 @@ func newNodeSut(c *kit.Ctx, r *kit.Rand, pods []*podSpec, o nodeOpts, ann *strin
 		},
 		Patch: func(ctx context.Context, cl client.WithWatch, obj client.Object, patch client.Patch, opts ...client.PatchOption) error {
 			if _, isNode := obj.(*corev1.Node); isNode {
-				switch n.fault {
+				switch n.hot() {
 				case "taint-conflict":
 					return apierrors.NewConflict(schema.GroupResource{Resource: "nodes"}, nodeName, errors.New("injected"))
 				case "taint-error":
@@ -161,7 +162,7 @@ func newNodeSut(c *kit.Ctx, r *kit.Rand, pods []*podSpec, o nodeOpts, ann *strin
 			return cl.Patch(ctx, obj, patch, opts...)
 		},
 		SubResourcePatch: func(ctx context.Context, cl client.Client, sub string, obj client.Object, patch client.Patch, opts ...client.SubResourcePatchOption) error {
-			if _, isClaim := obj.(*v1.NodeClaim); isClaim && sub == "status" && n.fault == "status-patch-fails" {
+			if _, isClaim := obj.(*v1.NodeClaim); isClaim && sub == "status" && n.hot() == "status-patch-fails" {
 				return apierrors.NewInternalError(errors.New("injected"))
 			}
 			return cl.SubResource(sub).Patch(ctx, obj, patch, opts...)
@@ -171,6 +172,13 @@ func newNodeSut(c *kit.Ctx, r *kit.Rand, pods []*podSpec, o nodeOpts, ann *strin
 	n.q = terminator.NewQueue(n.clk, n.c, rec)
 	n.ctrl = termination.NewController(n.clk, n.c, &nodeProvider{CloudProvider: fake.NewCloudProvider(), n: n}, terminator.NewTerminator(n.clk, n.c, n.q, rec), rec)
 	return n
+}
+
+func (n *nodeSut) hot() string {
+	if n.armed {
+		return n.fault
+	}
+	return ""
 }
 
 func (n *nodeSut) snapshot() []qitem { return (&sut{q: n.q}).snapshot() }
@@ -227,7 +235,45 @@ func (n *nodeSut) pods() []*corev1.Pod {
 	return out
 }
 
-// pass runs one reconcile of the deleting node; returns false when the node is done (drained or gone).
+func hasDisruptedTaint(node *corev1.Node) bool {
+	for _, t := range node.Spec.Taints {
+		if t.Key == v1.DisruptedTaintKey && t.Effect == corev1.TaintEffectNoSchedule {
+			return true
+		}
+	}
+	return false
+}
+
+// gateOf says which gate of the model this pass goes through, in the order the controller checks them.
+func (n *nodeSut) gateOf(node *corev1.Node, claim *v1.NodeClaim) string {
+	o := n.opts
+	switch {
+	case !o.deleting, !o.finalizer, !o.managed:
+		return "GSkip"
+	case n.fault == "claim-list-fails":
+		return "GEarlyError"
+	case n.hasClaim && claim != nil && claim.DeletionTimestamp == nil && n.fault == "claim-delete-fails":
+		return "GEarlyError"
+	case !o.ready && o.instance == "gone":
+		return "GInstanceGone"
+	case !o.ready && o.instance == "error":
+		return "GEarlyError"
+	}
+	tainted := hasDisruptedTaint(node) && node.Labels[corev1.LabelNodeExcludeBalancers] == "karpenter"
+	switch {
+	case n.fault == "taint-conflict" && !tainted:
+		return "GTaintConflict"
+	case n.fault == "taint-error" && !tainted:
+		return "GTaintError"
+	case n.fault == "pod-list-fails":
+		return "GPodListFails"
+	case n.fault == "status-patch-fails":
+		return "GStatusPatchFails"
+	}
+	return "GRun"
+}
+
+// pass runs one reconcile of the node; returns false when the node is done (drained or gone).
 func (n *nodeSut) pass() bool {
 	h := n.h
 	n.clk.SetTime(at(h.now))
@@ -236,9 +282,23 @@ func (n *nodeSut) pass() bool {
 		return false
 	}
 	before := n.claim()
+	if !n.hasClaim {
+		before = nil // none, or duplicates (treated as none)
+	}
+	if n.fault == "taint-conflict" || n.fault == "taint-error" {
+		if hasDisruptedTaint(node) && node.Labels[corev1.LabelNodeExcludeBalancers] == "karpenter" {
+			n.fault = "" // no taint patch will be issued; the fault would hit the finalizer patch instead
+		}
+	}
+	gate := n.gateOf(node, before)
+	if gate == "GInstanceGone" && (n.fault == "taint-conflict" || n.fault == "taint-error") {
+		n.fault = "" // would hit the finalizer patch of the vanished instance's node instead of the taint patch
+	}
 	pods := n.pods()
 	n.calls = nil
-	_, err := n.ctrl.Reconcile(n.ctx, node)
+	n.armed = true
+	result, err := n.ctrl.Reconcile(n.ctx, node.DeepCopy())
+	n.armed = false
 	after := n.claim()
 	snap := n.snapshot()
 	var evs [][2]int64
@@ -249,15 +309,39 @@ func (n *nodeSut) pass() bool {
 	if len(n.calls) > 0 {
 		h.c.Fail(h.c.NextID(), "oracle:drain-direct-call: the node termination reconcile itself issued evict/delete calls", "", map[string]any{"ops": h.sum})
 	}
-	res := "NRequeue"
-	gone := n.c.Get(n.ctx, client.ObjectKey{Name: nodeName}, &corev1.Node{}) != nil
+	nodeAfter := &corev1.Node{}
+	gone := n.c.Get(n.ctx, client.ObjectKey{Name: nodeName}, nodeAfter) != nil
+	res := "NSkip"
 	switch {
 	case err != nil:
 		res = "NError"
 	case n.hasClaim && after != nil && after.StatusConditions().IsTrue(v1.ConditionTypeDrained):
 		res = "NDrained"
-	case !n.hasClaim && gone:
-		res = "NDrained"
+	case gone:
+		res = "NGone"
+	case result.Requeue || result.RequeueAfter != 0: //nolint:staticcheck
+		res = "NRequeue"
+	}
+	// the taint is in place whenever the drain was reached
+	if !gone && (gate == "GRun" || gate == "GPodListFails" || gate == "GStatusPatchFails") && gAnn(before) != "AnnBad" {
+		var others, othersAfter []string
+		for _, t := range node.Spec.Taints {
+			if t.Key != v1.DisruptedTaintKey {
+				others = append(others, t.ToString())
+			}
+		}
+		cnt := 0
+		for _, t := range nodeAfter.Spec.Taints {
+			if t.Key == v1.DisruptedTaintKey {
+				cnt++
+			} else {
+				othersAfter = append(othersAfter, t.ToString())
+			}
+		}
+		if cnt != 1 || !hasDisruptedTaint(nodeAfter) || fmt.Sprint(others) != fmt.Sprint(othersAfter) || nodeAfter.Labels[corev1.LabelNodeExcludeBalancers] != "karpenter" {
+			h.c.Fail(h.c.NextID(), fmt.Sprintf("oracle:node-taint: pods are drained from a node that is not (exactly once) tainted %s:NoSchedule, or other taints were lost: before %v after %v",
+				v1.DisruptedTaintKey, node.Spec.Taints, nodeAfter.Spec.Taints), "", map[string]any{"ops": h.sum})
+		}
 	}
 	idx := make([]string, len(pods))
 	for i, p := range pods {
@@ -268,14 +352,21 @@ func (n *nodeSut) pass() bool {
 		cafter = "CAbsent"
 	}
 	deleting := before != nil && before.DeletionTimestamp != nil
-	if n.hasClaim && !deleting {
+	if n.hasClaim && !deleting && gate == "GRun" {
 		h.c.Count("node:first-pass-status-patch-conflict")
 	}
-	h.ops = append(h.ops, fmt.Sprintf("INode %s %s %s %s %s %s %s %s %s %s", kit.GBool(n.hasClaim), kit.GBool(deleting), gAnn(before), gCond(before), gZ(h.now),
+	h.ops = append(h.ops, fmt.Sprintf("INode %s %s %s %s %s %s %s %s %s %s %s", gate, kit.GBool(n.hasClaim), kit.GBool(deleting), gAnn(before), gCond(before), gZ(h.now),
 		kit.GList(idx), res, cafter, kit.GListOf(evs, gKey), gQueue(snap)))
-	h.sum = append(h.sum, fmt.Sprintf("node-pass@%d claim=%v ann=%s cond=%s -> %s cond=%s queued=%d", h.now, n.hasClaim, gAnn(before), gCond(before), res, cafter, len(snap)))
+	h.sum = append(h.sum, fmt.Sprintf("node-pass@%d gate=%s fault=%q claims=%d ann=%s cond=%s -> %s cond=%s queued=%d", h.now, gate, n.fault, n.opts.claims, gAnn(before), gCond(before), res, cafter, len(snap)))
 	h.drains++
-	h.c.Count("node:" + res + ":" + map[bool]string{true: "claim", false: "no-claim"}[n.hasClaim] + ":" + gAnn(before)[:min(8, len(gAnn(before)))])
+	if gate == "GRun" {
+		h.c.Count("node:" + res + ":" + map[bool]string{true: "claim", false: "no-claim"}[n.hasClaim] + ":" + gAnn(before)[:min(8, len(gAnn(before)))])
+	} else {
+		h.c.Count("node:gate:" + gate + ":" + res)
+	}
+	if n.opts.claims == 2 {
+		h.c.Count("node:duplicate-nodeclaims-treated-as-none")
+	}
 	if before != nil {
 		if cnd := before.StatusConditions().Get(v1.ConditionTypeDrained); cnd != nil && cnd.IsUnknown() {
 			switch d := h.now - relNs(cnd.LastTransitionTime.Time) - 5*sec; {
@@ -284,7 +375,7 @@ func (n *nodeSut) pass() bool {
 			}
 		}
 	}
-	return res != "NDrained" && !gone
+	return res != "NDrained" && res != "NGone" && !gone
 }
 
 func (n *nodeSut) setAnn(val *string) {
@@ -375,7 +466,34 @@ func runNode(c *kit.Ctx) {
 		}
 		pods = append(pods, p)
 	}
-	hasClaim := !r.Chance(1, 6)
+	o := nodeOpts{deleting: true, finalizer: true, managed: true, ready: true, instance: "there", claims: 1, reason: r.Chance(1, 3)}
+	switch r.Intn(12) {
+	case 0:
+		o.claims = 0
+	case 1:
+		o.claims = 2
+	case 2:
+		switch r.Intn(3) {
+		case 0:
+			o.deleting = false
+		case 1:
+			o.finalizer = false
+		case 2:
+			o.managed = false
+		}
+	case 3, 4:
+		o.ready = false
+		o.instance = kit.Pick(r, []string{"there", "gone", "error"})
+	}
+	switch r.Intn(4) {
+	case 0:
+		o.taints = []corev1.Taint{{Key: "example.com/other", Effect: corev1.TaintEffectNoSchedule}}
+	case 1: // the karpenter key with another effect must be replaced, others kept
+		o.taints = []corev1.Taint{{Key: "example.com/other", Effect: corev1.TaintEffectNoExecute}, {Key: v1.DisruptedTaintKey, Effect: corev1.TaintEffectNoExecute}}
+	case 2:
+		o.taints = []corev1.Taint{{Key: v1.DisruptedTaintKey, Effect: corev1.TaintEffectNoSchedule}}
+	}
+	hasClaim := o.claims == 1
 	var ann *string
 	switch r.Intn(5) {
 	case 0: // annotation not there yet (the lifecycle controller adds it after the NodeClaim delete)
@@ -384,10 +502,18 @@ func runNode(c *kit.Ctx) {
 	default:
 		ann = rfc(int64(r.Range(5, 120)) * sec)
 	}
-	n := newNodeSut(c, r, pods, hasClaim, ann)
+	n := newNodeSut(c, r, pods, o, ann)
 	h := n.h
 	h.now = int64(r.Range(0, 3))*sec + kit.Pick(r, []int64{0, 0, sec / 2, 1})
-	for i := 0; i < 14; i++ {
+	passes := 14
+	if !o.deleting || !o.finalizer || !o.managed {
+		passes = 2
+	}
+	for i := 0; i < passes; i++ {
+		n.fault = ""
+		if r.Chance(1, 6) {
+			n.fault = kit.Pick(r, []string{"claim-list-fails", "claim-delete-fails", "taint-conflict", "taint-error", "pod-list-fails", "status-patch-fails"})
+		}
 		if !n.pass() {
 			break
 		}
